@@ -5,11 +5,13 @@ Line protocol of the C13 model.
 
 * `C13 run <tree> <prog>`  — build the scorer tree (nesting depth ≤ 3 over vector leaves) and run
   the call program on the implementation-level model; one result per call, `;`-separated.
+* `C13 runh <fix> <tree> <prog>` — the same with a set of `…_partial` hypotheses enforced
+  (`-` | subset of `dw,fc,fs,cu,ci,bs`): the model of the code with those defects repaired.
 * `C13 spec <docs> <prog>` — run the same program on the specification cursor over `docs`.
 * `C13 consts`             — the extracted constants the model was built with.
 
 tree (prefix notation, tokens separated by `;`):
-  `v;<docs>;<score>` | `bu;<sum 0/1>;<n>;T1..Tn` | `su;<n>;T1..Tn` | `in;<dense 0/1>;<n>;T1..Tn`
+  `v;<docs>;<score>` | `bs;<docs>;<max_value>;<score>` | `bu;<sum 0/1>;<n>;T1..Tn` | `su;<n>;T1..Tn` | `in;<dense 0/1>;<n>;T1..Tn`
   | `ex;<n>;U;E1..En` | `ro;<sum 0/1>;REQ;OPT` | `dj;<sum 0/1>;<min_match>;<n>;T1..Tn`
 prog (`;`-separated): `d` doc | `a` advance | `s<t>` seek | `k<t>` seek_danger | `f` fill_buffer
   | `b<m>` fill_bitset_block | `c` count_including_deleted | `x` score
@@ -33,6 +35,10 @@ def parseTree : Nat → List String → Option (Tree × List String)
       match natList docs, sc.toNat? with
       | some l, some s => some (.vec l s, rest)
       | _, _ => none
+    | "bs" :: docs :: mx :: sc :: rest =>
+      match natList docs, mx.toNat?, sc.toNat? with
+      | some l, some m, some s => some (.bits l m s, rest)
+      | _, _, _ => none
     | "bu" :: sum :: n :: rest =>
       match sum.toNat?, n.toNat? with
       | some sm, some k => (many k rest []).map (fun (cs, r) => (.bunion (sm == 1) cs, r))
@@ -116,14 +122,35 @@ def specDS : DS (List Nat) where
 def parseProg (s : String) : Option (List Call) :=
   if s == "-" then some [] else (s.splitOn ";").mapM parseCall
 
+/-- enforced hypotheses, `-` or a comma separated subset of
+`dw` (finding 5) `fc` (1) `fs` (2) `cu` (3) `ci` (8) `bs` (4) `du` (9) -/
+def parseFix (s : String) : Option Fix :=
+  if s == "-" then some {} else
+  (s.splitOn ",").foldlM (fun (fx : Fix) tok =>
+    match tok with
+    | "dw" => some { fx with dangerWindow := true }
+    | "fc" => some { fx with fillClear := true }
+    | "fs" => some { fx with fillScore := true }
+    | "cu" => some { fx with unionCountEnd := true }
+    | "ci" => some { fx with interCountEnd := true }
+    | "bs" => some { fx with bitsetSticky := true }
+    | "du" => some { fx with childRevalidate := true }
+    | _ => none) {}
+
+def runTree (fx : Fix) (tree prog : String) : String :=
+  match parseTree 64 (tree.splitOn ";"), parseProg prog with
+  | some (t, []), some calls =>
+    match buildTree fx 3 t with
+    | some s => ";".intercalate (runCalls (levelDS fx 3) s calls)
+    | none => "bad-op"
+  | _, _ => "bad-op"
+
 def handle : List String → String
-  | ["run", tree, prog] =>
-    match parseTree 64 (tree.splitOn ";"), parseProg prog with
-    | some (t, []), some calls =>
-      match buildTree 3 t with
-      | some s => ";".intercalate (runCalls (levelDS 3) s calls)
-      | none => "bad-op"
-    | _, _ => "bad-op"
+  | ["run", tree, prog] => runTree {} tree prog
+  | ["runh", fix, tree, prog] =>
+    match parseFix fix with
+    | some fx => runTree fx tree prog
+    | none => "bad-op"
   | ["spec", docs, prog] =>
     match natList docs, parseProg prog with
     | some l, some calls => ";".intercalate (runCalls specDS l calls)
